@@ -299,6 +299,70 @@ def check_case(ctx, case):
         ctx.nontrivial(case, sample=case)
 
 
+def check_inner_unshimmed(ctx, case):
+    """WITHOUT the K10 shim: a handler of application A serves a request on application B. What K10 breaks is A's view afterwards (the witnesses);
+    the INNER response - B's own request, served to its end - holds on the unchanged tree and is judged here against the stand-alone reference."""
+    w = None
+    for s in case['steps']:
+        for a in s['acts']:
+            solo(a['kind'], a['n'], 'default')
+    try:
+        w = World(case)
+        for si, s in enumerate(case['steps']):
+            try:
+                w.serve(s['app'], s['kind'], s['n'], s['acts'], f'step {si} on app {s["app"]}')
+            except Exception:
+                pass            # (the outer request may fail in any way: K10)
+    finally:
+        for u in (w.undo if w else []):
+            try:
+                u()
+            except Exception:
+                pass
+    inner = [x for x in w.served if 'nested serve' in x[0]]
+    if not inner:
+        raise CheckFailure(f'the nested request was not served at all: {case}; problems {w.problems[:2]}')
+    for desc, kind, n, got, cfg in inner:
+        ref = solo(kind, n, cfg)
+        if got != ref:
+            raise CheckFailure(f'{desc} (no shim; only the inner response is judged): differs from the stand-alone response:\n  got  {got[0]!r} {got[1]!r} {got[2][:200]!r}\n'
+                               f'  solo {ref[0]!r} {ref[1]!r} {ref[2][:200]!r}')
+    ctx.nontrivial(case)
+
+
+def check_deferred_drain(ctx, case):
+    """Application A answers with a lazily encoded text stream; the server drains it only after application B has served a request on the same
+    thread (what a server that interleaves responses does). A's bytes must be what A alone produces. Run without the shim (the stream of this
+    kind does not look at the request any more, so K10 has no say) and with it."""
+    (ka, na), (kb, nb) = case['a'], case['b']
+    for shimmed in (False, True):
+        if shimmed:
+            shim.install()
+        try:
+            ref = solo(ka, na, 'default')
+            refb = solo(kb, nb, 'default')
+            a = S.make_app(private_errors=True)
+            b = S.make_app(private_errors=True)
+            calls = []
+            it = a(S.make_env(ka, na), lambda status, headers, exc_info=None: calls.append((status, headers)) or (lambda d: None))
+            rb = call_app(b, S.make_env(kb, nb))
+            body = b''.join(it)
+            close = getattr(it, 'close', None)
+            if close:
+                close()
+        finally:
+            if shimmed:
+                shim.uninstall()
+        got = (calls[-1][0], sorted(calls[-1][1]), body)
+        if got != ref:
+            raise CheckFailure(f'application A {ka, na} drained after application B served {kb, nb} ({"with" if shimmed else "without"} the shim): A answers\n  got  {got[0]!r} {got[2][:120]!r}\n'
+                               f'  solo {ref[0]!r} {ref[2][:120]!r}')
+        if (rb.status, sorted(rb.headers or []), rb.body) != refb:
+            raise CheckFailure(f'application B {kb, nb} served while A\'s stream {ka, na} was pending differs from its stand-alone response')
+        ctx.evals += 1
+    ctx.nontrivial('drain:' + repr(case))
+
+
 def check_pair(ctx, case):
     run_case(ctx, case, shimmed=True)
     ctx.nontrivial(case)
@@ -362,6 +426,17 @@ def run(ctx):
             ctx.guarded(check_pair, {'napps': 2, 'default': -1, 'threads': None, 'cfg': ['default', 'default'],
                                      'steps': [{'app': 0, 'kind': 'foreign', 'n': 5, 'acts': [act]}, {'app': 0, 'kind': k, 'n': 6, 'acts': []}, {'app': 1, 'kind': k, 'n': 7, 'acts': []}]})
         ctx.count('reconfigured_derived_application_grid', len(grid))
+    if ctx.shard == 0:
+        for na in (1, 2, 3, 4):
+            for kb, nb in (('latin_gen', 2), ('latin_gen', 1), ('ok', 5), ('notfound', 5), ('crash', 5), ('expires', 5), ('status_str', 5), ('header_case', 5)):
+                ctx.guarded(check_deferred_drain, {'drain': True, 'a': ['latin_gen', na], 'b': [kb, nb]})
+        ctx.count('deferred_drain_grid')
+    # without the shim: the inner response of a nested call, for every kind
+    if ctx.shard == 0:
+        for k in list(S.KINDS):
+            ctx.guarded(check_inner_unshimmed, {'unshimmed_inner': True, 'napps': 2, 'default': -1, 'threads': None, 'cfg': ['default', 'default'],
+                                                'steps': [{'app': 0, 'kind': 'foreign', 'n': 8, 'acts': [{'do': 'serve', 'app': 1, 'kind': k, 'n': 9}]}]})
+        ctx.count('unshimmed_inner_response_grid', len(S.KINDS))
     # two applications, one request each on two threads: EVERY single-preemption schedule for pairs that meet in process-wide code
     from vlib.sched import BIG
     for pi, (a, b) in enumerate(THREAD_PAIRS):
@@ -380,6 +455,10 @@ def run(ctx):
 
 
 def replay(ctx, case):
+    if case.get('unshimmed_inner'):
+        return check_inner_unshimmed(ctx, case)
+    if case.get('drain'):
+        return check_deferred_drain(ctx, case)
     if 'witness' in case:
         return witness(ctx, case['witness'])
     check_case(ctx, case)
